@@ -279,14 +279,20 @@ fn spawn_k<const KK: usize>(d: &ActorDecl) -> Spawned {
         Entry::SpawnOwning => own(actor.spawn_owning(), obj),
         Entry::SpawnDefault => {
             drop(actor);
-            match Probe::<KK>::spawn_default() {
+            crate::actors::expect_default_spawn(KK, Arc::clone(&spec));
+            let r = Probe::<KK>::spawn_default();
+            crate::actors::default_spawn_returned();
+            match r {
                 Ok(a) => plain(a, 0),
                 Err(_) => Spawned { addr: None, owning: None, obj: 0 },
             }
         }
         Entry::DefaultSpawnOwning => {
             drop(actor);
-            match <Probe<KK> as DefaultSpawnable<_>>::spawn_owning() {
+            crate::actors::expect_default_spawn(KK, Arc::clone(&spec));
+            let r = <Probe<KK> as DefaultSpawnable<_>>::spawn_owning();
+            crate::actors::default_spawn_returned();
+            match r {
                 Ok(o) => own(o, 0),
                 Err(_) => Spawned { addr: None, owning: None, obj: 0 },
             }
